@@ -1,0 +1,64 @@
+//! Verification hooks (feature `verif-hooks`). Everything in here is inert unless a harness
+//! explicitly sets one of the thread-local knobs. Not part of the public API.
+use std::cell::Cell;
+
+thread_local! {
+    /// H1: remaining steps of the evaluation loop; `u64::MAX` means unlimited.
+    static FUEL: Cell<u64> = const { Cell::new(u64::MAX) };
+    /// H2: static type annotations use the full (unsimplified) contract.
+    static FULL_STATIC_CONTRACTS: Cell<bool> = const { Cell::new(false) };
+    /// H3: contract equality always answers "different" (deduplication off).
+    static NO_DEDUP: Cell<bool> = const { Cell::new(false) };
+    /// H4: every recursive field is assumed to depend on all the fields.
+    static DEPS_UNKNOWN: Cell<bool> = const { Cell::new(false) };
+}
+
+/// Message carried by the `EvalErrorKind::Other` raised when the step budget is exhausted.
+pub const BUDGET_MSG: &str = "verif: step budget exhausted";
+
+pub fn set_fuel(steps: u64) {
+    FUEL.with(|f| f.set(steps));
+}
+
+pub fn fuel() -> u64 {
+    FUEL.with(|f| f.get())
+}
+
+/// Consume one step. Returns `false` when the budget is exhausted.
+pub fn tick() -> bool {
+    FUEL.with(|f| {
+        let cur = f.get();
+        if cur == u64::MAX {
+            true
+        } else if cur == 0 {
+            false
+        } else {
+            f.set(cur - 1);
+            true
+        }
+    })
+}
+
+pub fn set_full_static_contracts(b: bool) {
+    FULL_STATIC_CONTRACTS.with(|f| f.set(b));
+}
+
+pub fn full_static_contracts() -> bool {
+    FULL_STATIC_CONTRACTS.with(|f| f.get())
+}
+
+pub fn set_no_dedup(b: bool) {
+    NO_DEDUP.with(|f| f.set(b));
+}
+
+pub fn no_dedup() -> bool {
+    NO_DEDUP.with(|f| f.get())
+}
+
+pub fn set_deps_unknown(b: bool) {
+    DEPS_UNKNOWN.with(|f| f.set(b));
+}
+
+pub fn deps_unknown() -> bool {
+    DEPS_UNKNOWN.with(|f| f.get())
+}
